@@ -5,6 +5,8 @@ import Mathlib.Logic.Equiv.Defs
 import CCV.Lemmas.Pivot
 import CCV.Lemmas.Mask
 import CCV.Lemmas.MaskRev
+import CCV.Lemmas.MaskTy
+import Mathlib.Algebra.Group.Prod
 /-
   C03 — a party's view reveals nothing beyond its own inputs and outputs.
 
@@ -322,6 +324,163 @@ example :
   decide
 
 end recipient
+
+/- ------------------------------------------------------------------------------------------------
+   Part (iv): TYPES.  The nodes of a compiled graph have different types; a tape variable is uniform on
+   ITS type only.  All values live in one group `R` (e.g. the product of all carrier groups), a type is
+   a subgroup (`TagTypes`), and the statements below are about the TYPED tapes and secrets: the
+   simulation of the discipline restricts to a bijection of the typed tapes.
+   ------------------------------------------------------------------------------------------------ -/
+section typed
+open CCV.Pivot CCV.Mask
+variable {R : Type} [AddCommGroup R]
+
+/-- a type-respecting simulation restricts to a bijection of the typed tapes -/
+theorem simT_bijective {X : Type} {T : Types R} {msgs : List (Msg X R)} {x x' : X}
+    {σ τ : (Nat → R) → (Nat → R)} (S : SimT T msgs x x' σ τ) :
+    Function.Bijective (fun (ρ : {ρ : Nat → R // TypedTape T ρ}) =>
+      (⟨σ ρ.1, S.typedσ ρ.1 ρ.2⟩ : {ρ : Nat → R // TypedTape T ρ})) := by
+  constructor
+  · intro a b hab
+    have h1 : σ a.1 = σ b.1 := congrArg Subtype.val hab
+    have h2 : τ (σ a.1) = τ (σ b.1) := by rw [h1]
+    rw [S.left, S.left] at h2
+    exact Subtype.ext h2
+  · intro b
+    exact ⟨⟨τ b.1, S.typedτ b.1 b.2⟩, Subtype.ext (S.right b.1)⟩
+
+/-- **Soundness of the mask discipline on typed tapes.**  As `pivot_discipline_hides`, for tape
+    variables that range over their own type each: if every message takes its values in the type of its
+    pivot, the view is identically distributed, under the uniform distribution on the TYPED tapes, for
+    any two admissible secret vectors. -/
+theorem typed_discipline_hides {X : Type} (T : Types R) (PX : X → Prop) (msgs : List (Msg X R))
+    (h : Disc msgs) (hty : ∀ m ∈ msgs, MsgTyped T PX m) :
+    Hides (fun (x : {x : X // PX x}) (ρ : {ρ : Nat → R // TypedTape T ρ}) =>
+        (msgs.map (fun m => m.f x.1 ρ.1), offPivots msgs ρ.1))
+      (fun _ => ()) := by
+  intro x x' _
+  obtain ⟨σ, τ, S⟩ := exists_sim_typed T PX msgs h hty x.1 x'.1 x.2 x'.2
+  refine ⟨_, simT_bijective S, ?_⟩
+  intro ρ
+  refine Prod.ext ?_ ?_
+  · exact List.map_congr_left (fun m hm => S.align ρ.1 m hm)
+  · exact (offPivots_congr msgs ρ.1 (σ ρ.1) (fun v hv => S.fixσ ρ.1 v hv)).symm
+
+/-- **Soundness of the checked certificate with types (non-recipient observer).**  `tys` tags every
+    node of the exported graph with its type, `vty` every unknown tape variable.  If the checker accepts
+    the certificate (`discOk`, `compOk`) AND the types (`tyOk`: `add`/`sub`/`nop` only between nodes of
+    one type, each occurrence of a tape variable has the variable's type, each message has the type of
+    its pivot), then for every semantics that respects the tags (`SemOK`: type soundness of the
+    evaluator) the observer's view is identically distributed — under the uniform distribution on the
+    tapes whose every coordinate lies in its own type — for all admissible values of the secrets. -/
+theorem checked_graph_hides_typed (T : TagTypes R) (sem : Nat → List R → R) (own kn : Nat → R)
+    (g : List Mask.Node) (tys vty : List Nat) (cert : Cert) (comp : List Nat)
+    (h : discOk g cert = true) (hc : compOk g comp = true) (ht : tyOk g tys vty cert = true)
+    (hsem : SemOK T sem own kn g tys) :
+    Hides (fun (x : {x : Nat → R // SecOK T g tys x}) (ρ : {ρ : Nat → R // TypedTape (T.vars vty) ρ}) =>
+        ((cert.map (toMsg sem own kn g)).map (fun m => m.f x.1 ρ.1),
+         comp.map (fun m => (evalRun sem own kn x.1 ρ.1 g []).getD m 0),
+         offPivots (cert.map (toMsg sem own kn g)) ρ.1))
+      (fun _ => ()) := by
+  intro x x' _
+  obtain ⟨σ, τ, S⟩ := exists_sim_typed (T.vars vty) (SecOK T g tys) _ (discOk_disc sem own kn g cert h)
+    (cert_msgs_typed T sem own kn g tys vty cert ht h hsem) x.1 x'.1 x.2 x'.2
+  refine ⟨_, simT_bijective S, ?_⟩
+  intro ρ
+  refine Prod.ext ?_ (Prod.ext ?_ ?_)
+  · exact List.map_congr_left (fun m hm => S.align ρ.1 m hm)
+  · exact compOk_const sem own kn g comp hc x.1 x'.1 ρ.1 (σ ρ.1)
+  · exact (offPivots_congr _ ρ.1 (σ ρ.1) (fun v hv => S.fixσ ρ.1 v hv)).symm
+
+/-- **… and for an output recipient** (as `checked_graph_hides_recipient`, on typed tapes) -/
+theorem checked_graph_hides_recipient_typed (T : TagTypes R) (sem : Nat → List R → R) (own kn : Nat → R)
+    (g : List Mask.Node) (tys vty : List Nat) (cert : Cert) (comp revs : List Nat) (o : Nat)
+    (h : discOk g cert = true) (hc : compOk g comp = true) (ht : tyOk g tys vty cert = true)
+    (hsem : SemOK T sem own kn g tys)
+    (hr : revOk g (cert.map (·.1) ++ comp) o revs = true)
+    (hout : ∀ x ρ ρ', val sem own kn g o x ρ = val sem own kn g o x ρ') :
+    Hides (fun (x : {x : Nat → R // SecOK T g tys x}) (ρ : {ρ : Nat → R // TypedTape (T.vars vty) ρ}) =>
+        ((cert.map (toMsg sem own kn g)).map (fun m => m.f x.1 ρ.1),
+         comp.map (fun m => val sem own kn g m x.1 ρ.1),
+         revs.map (fun m => val sem own kn g m x.1 ρ.1),
+         offPivots (cert.map (toMsg sem own kn g)) ρ.1))
+      (fun x => val sem own kn g o x.1 (fun _ => 0)) := by
+  intro x x' hx
+  obtain ⟨σ, τ, S⟩ := exists_sim_typed (T.vars vty) (SecOK T g tys) _ (discOk_disc sem own kn g cert h)
+    (cert_msgs_typed T sem own kn g tys vty cert ht h hsem) x.1 x'.1 x.2 x'.2
+  refine ⟨_, simT_bijective S, ?_⟩
+  intro ρ
+  have e1 : (cert.map (toMsg sem own kn g)).map (fun m => m.f x.1 ρ.1)
+      = (cert.map (toMsg sem own kn g)).map (fun m => m.f x'.1 (σ ρ.1)) :=
+    List.map_congr_left (fun m hm => S.align ρ.1 m hm)
+  have e2 := compOk_const sem own kn g comp hc x.1 x'.1 ρ.1 (σ ρ.1)
+  simp only [revOk, Bool.and_eq_true, List.all_eq_true, decide_eq_true_eq, beq_iff_eq] at hr
+  obtain ⟨⟨hw, ho⟩, hrev⟩ := hr
+  have hmsg : ∀ j ∈ cert.map (·.1) ++ comp, val sem own kn g j x.1 ρ.1 = val sem own kn g j x'.1 (σ ρ.1) := by
+    intro j hj
+    rcases List.mem_append.mp hj with hj | hj
+    · obtain ⟨mv, hmv, rfl⟩ := List.mem_map.mp hj
+      exact S.align ρ.1 (toMsg sem own kn g mv) (List.mem_map.mpr ⟨mv, hmv, rfl⟩)
+    · have := List.map_eq_map_iff.mp e2 j hj
+      exact this
+  refine Prod.ext e1 (Prod.ext e2 (Prod.ext ?_ ?_))
+  · apply List.map_congr_left
+    intro r hrm
+    have hro := hrev r hrm
+    have hs := rcls_sound sem own kn g (cert.map (·.1) ++ comp) r hw x.1 x'.1 ρ.1 (σ ρ.1) hmsg o ho
+    rw [hro.2] at hs
+    simp only [RRel] at hs
+    have ho1 : val sem own kn g o x.1 ρ.1 = val sem own kn g o x'.1 (σ ρ.1) := by
+      rw [hout x.1 ρ.1 (fun _ => 0), hout x'.1 (σ ρ.1) (fun _ => 0)]; exact hx
+    have : val sem own kn g r x.1 ρ.1
+        = val sem own kn g o x.1 ρ.1 - (val sem own kn g o x.1 ρ.1 - val sem own kn g r x.1 ρ.1) := by
+      abel
+    rw [this]
+    have hs' : val sem own kn g o x.1 ρ.1 - val sem own kn g r x.1 ρ.1
+        = val sem own kn g o x'.1 (σ ρ.1) - val sem own kn g r x'.1 (σ ρ.1) := hs
+    rw [hs', ho1]; abel
+  · exact (offPivots_congr _ ρ.1 (σ ρ.1) (fun v hv => S.fixσ ρ.1 v hv)).symm
+
+/-- non-vacuity: two types inside ℤ × ℤ (type 0 = ℤ × 0, type 1 = 0 × ℤ).  Nodes: 0: secret x (type 0),
+    1: tape variable 0 (type 0), 2: x + ρ₀ (message, type 0), 3: an operation that converts x to type 1,
+    4: tape variable 1 (type 1), 5: conv x − ρ₁ (message, type 1).  The checker accepts discipline and
+    types, and a semantics respecting the tags exists. -/
+def twoTypes : TagTypes (Int × Int) where
+  P := fun t a => if t = 0 then a.2 = 0 else a.1 = 0
+  zero := by intro t; by_cases h : t = 0 <;> simp [h]
+  add := by
+    intro t a b ha hb
+    by_cases h : t = 0
+    · simp only [h, if_true] at *; simp [ha, hb]
+    · simp only [h, if_false] at *; simp [ha, hb]
+  neg := by
+    intro t a ha
+    by_cases h : t = 0
+    · simp only [h, if_true] at *; simp [ha]
+    · simp only [h, if_false] at *; simp [ha]
+
+def gTwo : List Mask.Node :=
+  [⟨.hid 0, []⟩, ⟨.tapeU 0, []⟩, ⟨.add, [0, 1]⟩, ⟨.op 0, [0]⟩, ⟨.tapeU 1, []⟩, ⟨.sub, [3, 4]⟩]
+
+example : discOk gTwo [(5, 1), (2, 0)] = true ∧ compOk gTwo [] = true
+    ∧ tyOk gTwo [0, 0, 0, 1, 1, 1] [0, 1] [(5, 1), (2, 0)] = true := by decide
+
+example : SemOK twoTypes (fun _ args => ((0 : Int), (args.getD 0 0).1)) (fun _ => 0) (fun _ => 0) gTwo
+    [0, 0, 0, 1, 1, 1] := by
+  intro j n hn
+  match j, hn with
+  | 0, hn => simp [gTwo] at hn; subst hn; simp [LeafOK]
+  | 1, hn => simp [gTwo] at hn; subst hn; simp [LeafOK]
+  | 2, hn => simp [gTwo] at hn; subst hn; simp [LeafOK]
+  | 3, hn => simp [gTwo] at hn; subst hn; simp [LeafOK, twoTypes]
+  | 4, hn => simp [gTwo] at hn; subst hn; simp [LeafOK]
+  | 5, hn => simp [gTwo] at hn; subst hn; simp [LeafOK]
+  | (k + 6), hn => simp [gTwo] at hn
+
+/-- a mistyped mask is rejected: message of type 1 "masked" by a variable of type 0 -/
+example : tyOk [⟨.hid 0, []⟩, ⟨.tapeU 0, []⟩, ⟨.add, [0, 1]⟩] [1, 0, 1] [0] [(2, 0)] = false := by decide
+
+end typed
 
 /-- non-vacuity: over ℤ/2 (bits) the input-sharing view of x = 0 and x = 1 has, for each value,
     exactly one tape producing it -/
